@@ -56,7 +56,7 @@ def gen_param(rng, safe):
     # message types handed over in a container ( Router([ReqType, RespType]) )
     st = lambda: {"kind": "struct_type", "name": "PT%d" % rng.randrange(3), "fields": [["a", rng.choice([3, 4])], ["b", 8]]}
     return {"kind": rng.choice(["list", "tuple"]), "v": [st()] + [st() if rng.random() < 0.5 else {"kind": "int", "v": rng.randrange(4)} for _ in range(rng.randrange(0, 3))]}
-  if k < 0.9: return {"kind": "struct_type", "name": "PT%d" % rng.randrange(3), "fields": [["a", rng.choice([3, 4])], ["b", 8]]}
+  if k < 0.9: return {"kind": "struct_type", "name": rng.choice(["PT0", "PT1", "PT2", "PT<3>", "pt.4"]), "fields": [["a", rng.choice([3, 4])], ["b", 8]]}          # ( two of the class names are no identifiers )
   if k < 0.93: return {"kind": "bits_value", "n": rng.choice([5, 8, 8]), "v": rng.choice([0, 1, 3, 3, rng.randrange(32)])}
   if k < 0.97: return {"kind": "struct_value", "name": "SVal", "fields": [["a", 4], ["b", 8]], "v": [rng.choice([0, 1, 2, 3]), rng.choice([0, 1, 2, 255])]}   # a bitstruct INSTANCE (e.g. a reset value)
   if safe: return {"kind": "float", "v": rng.choice([0.5, 1.0, 2.25])}
